@@ -66,10 +66,45 @@ theorem madOf_perfect (hres : ∀ i, fn w i ≠ 0 → fn Y i = fn L i) (wt : Lis
   obtain ⟨r, hr, rfl⟩ := hx
   rw [hz r hr, median_zeros _ hz, absv_eq]; simp
 
+theorem le_foldl_max (xs : List α) (x : α) :
+    x ≤ xs.foldl (fun m v => if m < v then v else m) x := by
+  induction xs generalizing x with
+  | nil => exact le_refl _
+  | cons a as ih =>
+    simp only [List.foldl_cons]
+    refine le_trans ?_ (ih _)
+    split_ifs with h
+    · exact le_of_lt h
+    · exact le_refl _
+
+theorem foldl_min_le (xs : List α) (x : α) :
+    xs.foldl (fun m v => if v < m then v else m) x ≤ x := by
+  induction xs generalizing x with
+  | nil => exact le_refl _
+  | cons a as ih =>
+    simp only [List.foldl_cons]
+    refine le_trans (ih _) ?_
+    split_ifs with h
+    · exact le_of_lt h
+    · exact le_refl _
+
+theorem minL_le_maxL (l : List α) : minL l ≤ maxL l := by
+  cases l with
+  | nil => exact le_refl _
+  | cons x xs => exact le_trans (foldl_min_le xs x) (le_foldl_max xs x)
+
+/-- the MAD threshold is non-negative when the tolerance is -/
+theorem madMinOf_nonneg (hmt : 0 ≤ G.madtol) (y w : List α) : 0 ≤ madMinOf G y w := by
+  unfold madMinOf
+  apply mul_nonneg hmt
+  have := minL_le_maxL (yvOf y w)
+  linarith
+
 /-- … hence the robust weights are kept -/
-theorem robustStep_perfect (hres : ∀ i, fn w i ≠ 0 → fn Y i = fn L i) (wt de rw : List α) (s n : α)
-    (hs : SuppIn wt w) : robustStep G Y L wt de rw s n = rw := by
-  rw [robustStep_eq, madOf_perfect hres wt hs, if_neg (lt_irrefl _)]
+theorem robustStep_perfect (hmt : 0 ≤ G.madtol) (hres : ∀ i, fn w i ≠ 0 → fn Y i = fn L i)
+    (wt de rw w' : List α) (s n : α)
+    (hs : SuppIn wt w) : robustStep G Y L wt de rw w' s n = rw := by
+  rw [robustStep_eq, madOf_perfect hres wt hs, if_neg (not_lt.2 (madMinOf_nonneg G hmt Y w'))]
 
 /-- … and the GCV score is zero -/
 theorem gsc_perfect (hres : ∀ i, fn w i ≠ 0 → fn Y i = fn L i) (hsq : G.sqrtw 0 = 0)
@@ -97,7 +132,7 @@ theorem gsc_perfect (hres : ∀ i, fn w i ≠ 0 → fn Y i = fn L i) (hsq : G.sq
 def PerfInv (Y L : List α) (st : GState α) : Prop :=
   st.2.1 = Y.map (fun _ => (nat 1 : α)) ∧ ∀ yt, st.1.ytemp = some yt → yt = L
 
-theorem gstep_perfInv (hres : ∀ i, fn w i ≠ 0 → fn Y i = fn L i) (hwl : w.length = Y.length)
+theorem gstep_perfInv (hmt : 0 ≤ G.madtol) (hres : ∀ i, fn w i ≠ 0 → fn Y i = fn L i) (hwl : w.length = Y.length)
     (de llasPow : List α) (hfit : ∀ s ∈ llasPow, ws2d Y s w = L) (n : α) (it : ℕ) (st st' : GState α)
     (hI : RInv llasPow Y.length st) (hP : PerfInv Y L st)
     (h : gstep G Y w de llasPow true n it st = some st') : PerfInv Y L st' := by
@@ -118,10 +153,10 @@ theorem gstep_perfInv (hres : ∀ i, fn w i ≠ 0 → fn Y i = fn L i) (hwl : w.
     · rw [e2, Option.some.injEq] at hy'
       rw [← hy']; exact hfit _ (hsub _ e1)
   refine ⟨?_, hyt'⟩
-  rw [c2, hyt' yt c1, robustStep_perfect G hres _ de _ _ n (suppIn_mul2 _ _)]
+  rw [c2, hyt' yt c1, robustStep_perfect G hmt hres _ de _ _ _ n (suppIn_mul2 _ _)]
   exact hrw
 
-theorem grun_perfInv (hres : ∀ i, fn w i ≠ 0 → fn Y i = fn L i) (hwl : w.length = Y.length)
+theorem grun_perfInv (hmt : 0 ≤ G.madtol) (hres : ∀ i, fn w i ≠ 0 → fn Y i = fn L i) (hwl : w.length = Y.length)
     (de llasPow : List α) (hfit : ∀ s ∈ llasPow, ws2d Y s w = L) (n : α) (k it : ℕ) (st r : GState α)
     (hI : RInv llasPow Y.length st) (hP : PerfInv Y L st)
     (h : grun G Y w de llasPow true n k it st = some r) : PerfInv Y L r := by
@@ -133,17 +168,10 @@ theorem grun_perfInv (hres : ∀ i, fn w i ≠ 0 → fn Y i = fn L i) (hwl : w.l
     simp only [grun, Option.bind_eq_some_iff] at h
     obtain ⟨st1, h1, h2⟩ := h
     exact ih _ _ (gstep_rinv G de llasPow n it st st1 hwl hI h1)
-      (gstep_perfInv G hres hwl de llasPow hfit n it st st1 hI hP h1) h2
+      (gstep_perfInv G hmt hres hwl de llasPow hfit n it st st1 hI hP h1) h2
 
 theorem perfInv_gstate0 (Y L : List α) : PerfInv Y L (gstate0 G Y) :=
   ⟨rfl, fun yt hyt => by simp [gstate0] at hyt⟩
-
-theorem mul2_ones' (w Y : List α) (h : w.length = Y.length) :
-    mul2 w (Y.map fun _ => (nat 1 : α)) = w := by
-  apply list_eq_of_fn _ _ (by simp [h])
-  intro i hi
-  have hi' : i < w.length := by simpa [h] using hi
-  rw [fn_mul2, fn_map_of_lt _ _ _ (by omega)]; simp
 
 /-! ### existence: on perfectly fitted data the first grid value is selected -/
 
@@ -178,7 +206,7 @@ theorem gcvSweep_perfect_first (Y wt de : List α) (s : α) (ss : List α) (big 
   exact lt_irrefl _
 
 /-- a robust step from a state whose running best has score 0 and curve `L` -/
-theorem gstep_perfect_fix (hres : ∀ i, fn w i ≠ 0 → fn Y i = fn L i) (hsq : G.sqrtw 0 = 0)
+theorem gstep_perfect_fix (hmt : 0 ≤ G.madtol) (hres : ∀ i, fn w i ≠ 0 → fn Y i = fn L i) (hsq : G.sqrtw 0 = 0)
     (hwl : w.length = Y.length) (de llasPow : List α) (hfit : ∀ s ∈ llasPow, ws2d Y s w = L)
     (n : α) (it : ℕ) (b : Best α) (hist : List (Best α)) (hb : b.score = 0) (hby : b.ytemp = some L)
     (hh : ∀ b' ∈ hist, b'.lam ∈ llasPow) :
@@ -192,11 +220,11 @@ theorem gstep_perfect_fix (hres : ∀ i, fn w i ≠ 0 → fn Y i = fn L i) (hsq 
     exact lt_irrefl _
   unfold gstep
   simp only [if_true, mul2_ones' w Y hwl, hsw, hby]
-  rw [robustStep_perfect G hres w de _ _ n (SuppIn.refl _)]
+  rw [robustStep_perfect G hmt hres w de _ _ _ n (SuppIn.refl _)]
 
 /-- the four robust iterations on perfectly fitted data: the first grid value is recorded
     in iteration 0 and nothing changes afterwards -/
-theorem grun_perfect (hres : ∀ i, fn w i ≠ 0 → fn Y i = fn L i) (hsq : G.sqrtw 0 = 0)
+theorem grun_perfect (hmt : 0 ≤ G.madtol) (hres : ∀ i, fn w i ≠ 0 → fn Y i = fn L i) (hsq : G.sqrtw 0 = 0)
     (hwl : w.length = Y.length) (de : List α) (s1 : α) (ss : List α)
     (hfit : ∀ s ∈ s1 :: ss, ws2d Y s w = L) (n : α) (hbig : 0 < G.big) :
     grun G Y w de (s1 :: ss) true n 4 0 (gstate0 G Y) =
@@ -213,11 +241,11 @@ theorem grun_perfect (hres : ∀ i, fn w i ≠ 0 → fn Y i = fn L i) (hsq : G.s
     unfold gstep gstate0 iterLams
     simp only [if_true, mul2_ones' w Y hwl, Nat.not_lt_zero, if_false,
       gcvSweep_perfect_first G Y w de s1 ss G.big hbig h0, hb1y, List.nil_append]
-    rw [robustStep_perfect G hres w de _ _ n (SuppIn.refl _)]
+    rw [robustStep_perfect G hmt hres w de _ _ _ n (SuppIn.refl _)]
   have fix : ∀ it hist, (∀ b' ∈ hist, b'.lam ∈ s1 :: ss) →
       gstep G Y w de (s1 :: ss) true n it (cand G Y w de s1, Y.map (fun _ => (nat 1 : α)), hist) =
         some (cand G Y w de s1, Y.map (fun _ => (nat 1 : α)), hist ++ [cand G Y w de s1]) :=
-    fun it hist hh => gstep_perfect_fix G hres hsq hwl de (s1 :: ss) hfit n it _ hist hb1s hb1y hh
+    fun it hist hh => gstep_perfect_fix G hmt hres hsq hwl de (s1 :: ss) hfit n it _ hist hb1s hb1y hh
   have hmem : ∀ (l : List (Best α)), (∀ b' ∈ l, b' = cand G Y w de s1) → ∀ b' ∈ l, b'.lam ∈ s1 :: ss :=
     fun l hl b' hb' => by rw [hl b' hb']; exact hb1l
   simp only [grun, step0, Option.bind_some]
